@@ -248,6 +248,86 @@ def multiindex_report_sweep(rep, rng, n):
             rep.property_failure(m, f"MultiIndex: the lazy report names {got[:4]}, the violating cells are {want[:4]}")
 
 
+def frame_checks_sweep(rep, rng, n):
+    """several dataframe-level checks on one schema, some of which raise (a column that is not there): every check is
+    evaluated and reported on its own — the raising ones as CHECK_ERROR, the failing ones with their row-level failure cases —
+    and `error_counts` equals the collected errors per reason; pandas and polars"""
+    from collections import Counter as C_
+    import pandas as pd
+    import pandera as pa
+    for _ in range(n):
+        m = rng.randint(1, 5)
+        a = [rng.choice([-2, -1, 1, 2]) for _ in range(m)]
+        b = [rng.choice([-1, 3, 4]) for _ in range(m)]
+        labels = rng.sample(range(10, 40), m)
+        df = pd.DataFrame({"a": a, "b": b}, index=labels)
+        kinds = [rng.choice(["raise", "fail-a", "fail-b", "pass"]) for _ in range(rng.randint(2, 4))]
+        mk = {"raise": lambda: pa.Check(lambda d: d["not_there"] > 0), "fail-a": lambda: pa.Check(lambda d: d["a"] > 0),
+              "fail-b": lambda: pa.Check(lambda d: d["b"] > 0), "pass": lambda: pa.Check(lambda d: d["a"] > -5)}
+        schema = pa.DataFrameSchema({"a": pa.Column(int), "b": pa.Column(int)}, checks=[mk[k]() for k in kinds])
+        case = {"mode": "frame-checks", "a": a, "b": b, "labels": labels, "checks": kinds}
+        kind, out = P.run_validate(schema, df.copy(), lazy=True)
+        ekind, eout = P.run_validate(schema, df.copy(), lazy=False)
+        rep.case(case, nontrivial=True)
+        rep.evaluations += 1
+        rep.count("frame-checks:" + kind)
+        want = []
+        for ci, k in enumerate(kinds):
+            if k == "raise":
+                want.append(("CHECK_ERROR", ci, None))
+            elif k in ("fail-a", "fail-b"):
+                col = a if k == "fail-a" else b
+                bad = sorted(labels[i] for i, x in enumerate(col) if not x > 0)
+                if bad:
+                    want.append(("DATAFRAME_CHECK", ci, bad))
+        if (kind == "errors") != bool(want) or (ekind == "error") != bool(want):
+            rep.property_failure(case, f"dataframe-level checks {kinds}: lazy {kind}, eager {ekind}, violations expected: {bool(want)}")
+            continue
+        if not want:
+            continue
+        got = []
+        for e in out.schema_errors:
+            fc = e.failure_cases
+            # (a failing row is listed once per column of the frame: rows, not cells, are compared)
+            rows = sorted(set(fc["index"].tolist())) if hasattr(fc, "columns") and "index" in fc.columns else None
+            got.append((e.reason_code.name, e.check_index, rows))
+        if sorted(got, key=str) != sorted(want, key=str):
+            rep.property_failure(case, f"dataframe-level checks {kinds}: the lazy run collected {sorted(got, key=str)}, the violated "
+                                       f"checks are {sorted(want, key=str)}")
+            continue
+        if dict(out.error_counts) != dict(C_(w[0] for w in want)):
+            rep.property_failure(case, f"error_counts {dict(out.error_counts)} differ from the collected errors per reason")
+            continue
+        if (eout.reason_code.name, eout.check_index) not in {(w[0], w[1]) for w in want}:
+            rep.property_failure(case, "the eager error is not among the errors the lazy run collected")
+    # polars: error_counts are keyed like the pandas ones (reason names) and count the collected errors
+    try:
+        import polars as pl
+        import pandera.polars as pap
+    except Exception:  # noqa: BLE001
+        return
+    for _ in range(max(10, n // 4)):
+        m = rng.randint(1, 4)
+        a = [rng.choice([-1, 1, 2, None]) for _ in range(m)]
+        schema = pap.DataFrameSchema({"a": pap.Column(int, [pap.Check.gt(0), pap.Check.lt(2)], unique=rng.random() < 0.3),
+                                      "zz": pap.Column(int, required=rng.random() < 0.5)}, strict=rng.random() < 0.5)
+        df = pl.DataFrame({"a": a, "extra": list(range(m))}, schema={"a": pl.Int64, "extra": pl.Int64})
+        case = {"mode": "frame-checks", "backend": "polars", "a": a}
+        try:
+            schema.validate(df, lazy=True)
+            continue
+        except pap.errors.SchemaErrors as e:
+            collected = dict(C_(x.reason_code.name for x in e.schema_errors))
+            reported = {getattr(k, "name", k): v for k, v in dict(e.error_counts).items()}
+            rep.evaluations += 1
+            rep.count("frame-checks:polars:errors")
+            if dict(e.error_counts) != collected:
+                rep.property_failure(case, f"polars: error_counts {dict(e.error_counts)} differ from the collected errors per reason "
+                                           f"{collected} (same numbers under other keys: {reported == collected})")
+        except Exception as e:  # noqa: BLE001
+            rep.count("frame-checks:polars:crash:" + type(e).__name__)
+
+
 def n_cases(tier):
     return 1200 if tier == "quick" else 30000
 
@@ -259,6 +339,9 @@ def run(tier, replay=None):
     rep.audit["modules"] = MODULES
     if replay:
         cases = [json.loads(open(replay).read())["case"]]
+        if cases[0].get("mode") == "frame-checks":
+            frame_checks_sweep(rep, rng_for(PROP, "frame-checks"), 150)
+            return rep.finish(rule="replay of the dataframe-level check sweep (deterministic under VERIF_SEED)")
         if cases[0].get("mode") in ("depth-counts", "multiindex-report"):
             depth_counts_sweep(rep, rng_for(PROP, "depth-counts"), 150)
             multiindex_report_sweep(rep, rng_for(PROP, "mi-report"), 200)
@@ -272,6 +355,7 @@ def run(tier, replay=None):
         label_sweep(rep, rng_for(PROP, "labels"), 120 if tier == "quick" else 3000)
         depth_counts_sweep(rep, rng_for(PROP, "depth-counts"), 150 if tier == "quick" else 3000)
         multiindex_report_sweep(rep, rng_for(PROP, "mi-report"), 200 if tier == "quick" else 5000)
+        frame_checks_sweep(rep, rng_for(PROP, "frame-checks"), 150 if tier == "quick" else 3000)
     impl = [impl_observe(c) for c in cases]
     ans = run_driver("C01", [dict(c, depth="schemaAndData") for c in cases])
     for c, o, a in zip(cases, impl, ans):
